@@ -78,7 +78,7 @@ def key_fn(ev, clause):
     if ev.get('prior'):
         cfg += '+after_%s_into_same_prefix' % ev['prior']
     if ev.get('lanes', 1) > 1:
-        cfg += '+lanes'
+        cfg += '+lanes' + (':cutoff_' + ev['shape'] if ev.get('shape') else '')
     if clause == 'Inv_C01_NoForeign' and ev['percell']:
         shape.append('percell')
     return '%s|%s|%s|%s' % (clause, ev['entry'], ','.join(shape)[:120] or '-', cfg)
